@@ -1259,6 +1259,8 @@ impl<'a> CompilerState<'a> {
                     let mut start = 0;
                     let mut var_const = var_const_ex;
                     let mut set_const = set_const_ex;
+                    // The memory class is refined per declarator: 'char * const A = 0x280, * const B = 0x81;'
+                    let mut memory = memory;
                     for p in pair.into_inner() {
                         match p.as_rule() {
                             Rule::pointer => {
